@@ -45,7 +45,7 @@ func ModelSafe(u *Universe, d *Desc, v reflect.Value) bool {
 		return ModelSafe(u, d.Elem, v.FieldByName("Left"))
 	case KEitherRef, KRef:
 		return ModelSafe(u, d.Elem, v.FieldByName("Value"))
-	case KVmStack:
+	case KVmStack, KChain:
 		for i := 0; i < v.Len(); i++ {
 			if !ModelSafe(u, d.Elem, v.Index(i)) {
 				return false
